@@ -138,7 +138,7 @@ func matchClass(class tables.ClassDef) matcherFunc {
 // interprets `value` as an index in coverage array
 func matchCoverage(covs []tables.Coverage) matcherFunc {
 	return func(gid gID, value uint16) bool {
-		_, covered := covs[value].Index(gid)
+		_, covered := getCoverage(covs[value], gid)
 		return covered
 	}
 }
